@@ -544,6 +544,9 @@ pub struct PosEntry {
     pub text: String,
     pub start: (u32, u32),
     pub end: (u32, u32),
+    /// byte range in the printed source
+    pub byte_start: usize,
+    pub byte_end: usize,
 }
 
 pub struct Printer {
@@ -556,6 +559,8 @@ pub struct Printer {
     line: u32,
     col16: u32,
     synced: usize,
+    /// byte offset at the latest `pos()` call (start of the item being recorded)
+    mark_byte: usize,
 }
 
 const NAMED_ENTITIES: &[(char, &str)] = &[
@@ -574,7 +579,7 @@ const NAMED_ENTITIES: &[(char, &str)] = &[
 
 impl Printer {
     pub fn new(style_seed: u64) -> Self {
-        Printer { out: String::new(), rng: Rng::new(style_seed), loose: style_seed != 0, positions: vec![], record_positions: false, line: 0, col16: 0, synced: 0 }
+        Printer { out: String::new(), rng: Rng::new(style_seed), loose: style_seed != 0, positions: vec![], record_positions: false, line: 0, col16: 0, synced: 0, mark_byte: 0 }
     }
 
     fn sync(&mut self) {
@@ -592,13 +597,33 @@ impl Printer {
 
     pub fn pos(&mut self) -> (u32, u32) {
         self.sync();
+        self.mark_byte = self.out.len();
         (self.line, self.col16)
     }
 
     fn record(&mut self, kind: &'static str, start: (u32, u32), text: &str) {
         if self.record_positions {
+            let byte_start = self.mark_byte;
             let end = self.pos();
-            self.positions.push(PosEntry { kind, text: text.to_string(), start, end });
+            self.positions.push(PosEntry { kind, text: text.to_string(), start, end, byte_start, byte_end: self.out.len() });
+        }
+    }
+
+    /// record a span given by its byte start (line/column of the start are recomputed)
+    fn record_span(&mut self, kind: &'static str, byte_start: usize, text: &str) {
+        if self.record_positions {
+            let mut line = 0u32;
+            let mut col = 0u32;
+            for c in self.out[..byte_start].chars() {
+                if c == '\n' {
+                    line += 1;
+                    col = 0;
+                } else {
+                    col += c.len_utf16() as u32;
+                }
+            }
+            let end = self.pos();
+            self.positions.push(PosEntry { kind, text: text.to_string(), start: (line, col), end, byte_start, byte_end: self.out.len() });
         }
     }
 
@@ -820,6 +845,7 @@ impl Printer {
     }
 
     fn open_close(&mut self, tag: &str, write_attrs: &mut dyn FnMut(&mut Printer), kids: Option<&[Node]>) {
+        let lt = self.out.len();
         self.out.push('<');
         let start = self.pos();
         self.out.push_str(tag);
@@ -829,16 +855,20 @@ impl Printer {
         let empty = kids.map(|k| k.is_empty()).unwrap_or(true);
         if empty && (!self.loose || self.rng.chance(2, 3)) {
             self.out.push_str("/>");
+            self.record_span("open-tag-selfclosed", lt, tag);
             return;
         }
         self.out.push('>');
+        self.record_span("open-tag", lt, tag);
         if let Some(k) = kids {
             self.nodes(k);
         }
+        let et = self.out.len();
         self.out.push_str("</");
         self.out.push_str(tag);
         self.ws_opt();
         self.out.push('>');
+        self.record_span("end-tag", et, tag);
     }
 
     fn attrs_in_order(&mut self, n: usize) -> Vec<usize> {
@@ -1129,6 +1159,13 @@ pub fn print_template(t: &Tmpl, style_seed: u64) -> String {
     let mut p = Printer::new(style_seed);
     p.template(t);
     p.out
+}
+
+pub fn print_template_with_positions(t: &Tmpl, style_seed: u64) -> (String, Vec<PosEntry>) {
+    let mut p = Printer::new(style_seed);
+    p.record_positions = true;
+    p.template(t);
+    (p.out, p.positions)
 }
 
 // ------------------------------------------------------------------------------------------------
